@@ -120,6 +120,8 @@ Definition bdeduce (x : bop) (c0 c1 : V * V * V) (ay : V) : option bop :=
   let dp := gtb d0 d1 in
   let k :=
     if Bool.eqb bp dp then zero
+    else if (bp && negb dp) && eqb d0 d1 then zero
+    else if (negb bp && dp) && eqb b0 b1 then zero
     else
       let pyx := add (add (mul b0 ax) (mul b1 rvax))
                      (mul ay (add (mul u0 ax) (mul u1 rvax))) in
